@@ -129,8 +129,13 @@ pub fn dispatch(op: &str, _kind: &str, a: &mut Args) -> Option<String> {
             let base = format!("{} | {} {} | T", base, b(serde_json::to_string(&y0).unwrap() == js0), b(serde_json::to_string(&z0).unwrap() == js0));
             let js = serde_json::to_string(&m).unwrap();
             let y: Mixture<Gaussian> = serde_json::from_str(&js).unwrap();
+            // sequence (non-self-describing) rendering: [weights, components] goes through the custom visit_seq
+            let v: serde_json::Value = serde_json::to_value(&m).unwrap();
+            let arr = serde_json::Value::Array(vec![v["weights"].clone(), v["components"].clone()]);
+            let s: Mixture<Gaussian> = serde_json::from_value(arr).expect("sequence form");
+            let seq_same = serde_json::to_string(&s).unwrap() == js0 && s == m;
             let q = |mm: &Mixture<Gaussian>| crate::wire::tok(&mm.ln_f(&0.7_f64));
-            format!("{} | {} {}", base, q(&m), q(&y))
+            format!("{} | {} {} {}", base.replace("| T", if seq_same { "| T" } else { "| F" }), q(&m), q(&y), q(&s))
         }
         "MvGaussian" => {
             let mu = DVector::from_fn(d, |_, _| real(r));
@@ -166,6 +171,27 @@ pub fn dispatch(op: &str, _kind: &str, a: &mut Args) -> Option<String> {
             rt(&g)
         }
         "DiscreteUniform" => rt(&DiscreteUniform::<i32>::new(-((seed % 50) as i32) - 1, (seed % 17) as i32).unwrap()),
+        "StickSequence" => {
+            use rv::experimental::stick_breaking_process::StickSequence;
+            let seq = StickSequence::new(UnitPowerLaw::new_unchecked(pos(r)), Some(seed));
+            // a zero-width stick (break = 1) now and then: repeated ccdf values must survive the round trip
+            for i in 0..(2 + seed % 5) {
+                let b = if (seed + i) % 3 == 0 { 1.0 } else { 0.05 + 0.9 * r.gen::<f64>() };
+                seq.push_break(b);
+            }
+            let js = serde_json::to_string(&seq).unwrap();
+            let y: StickSequence = serde_json::from_str(&js).unwrap();
+            let z: StickSequence = serde_yaml::from_str(&serde_yaml::to_string(&seq).unwrap()).unwrap();
+            let b = |t: bool| if t { "T" } else { "F" };
+            let jy = serde_json::to_string(&y).unwrap();
+            let jz = serde_json::to_string(&z).unwrap();
+            let v: serde_json::Value = serde_json::from_str(&js).unwrap();
+            let mut ks = vec![];
+            keys_of(&v, &mut ks);
+            ks.sort();
+            ks.dedup();
+            format!("k:{} | {} {} | {} {} | T", ks.join(","), b(y == seq), b(z == seq), b(jy == js), b(jz == js))
+        }
         "InvWishart" => rt_json(&InvWishart::new(spd(r, d), d + (seed % 5) as usize).unwrap()),
         "NormalInvWishart" => {
             let mu = DVector::from_fn(d, |_, _| real(r));
